@@ -117,16 +117,19 @@ def check_case(case):
     out = {"evals": 1, "key": key, "nontrivial": gen.nontrivial(cands, bl), "violations": []}
     desc = dict(gen.lit(cands, bl), m=m, quota=quota, simultaneous=sim, transfer=tr, tiebreak=tb)
     if ex is not None:
+        # exceptions are C01's subject (no round exists to audit); they are reported under a C01: key
         k = classify_exception(ex, cands, bl, cfg)
         if k:
-            out["violations"].append({"key": "C02:" + k, "what": f"{type(ex).__name__}: {ex} on {desc}", "input": desc})
+            out["violations"].append({"key": "C01:" + k, "what": f"{type(ex).__name__}: {ex} on {desc}", "input": desc})
         return out
     Wd = oracle.W_of(bl)
     if tr == "random" and not all(w == int(w) for _, w in bl):
         # random transfer on rational weights should have been refused when a transfer happened; tolerated when none did
         pass
     probs = oracle.audit_stv(e, cands, Wd, m, quota, sim, tr, tb, transfer_log=log)
-    probs += oracle.audit_outcome(e, cands, m)
+    for p in oracle.audit_outcome(e, cands, m)[:2]:
+        out["violations"].append({"key": f"C01:STV({defect_class(cands, bl, cfg)}):outcome:" + p.split(":")[1].strip()[:50],
+                                  "what": p + f" on {desc}", "input": desc})
     for p in probs[:2]:
         out["violations"].append({"key": f"C02:STV({defect_class(cands, bl, cfg)}):" + p.split(":")[0 if p.startswith("threshold") else 1].strip()[:60],
                                   "what": p + f" on {desc}", "input": desc})
@@ -135,7 +138,13 @@ def check_case(case):
     return out
 
 
-def run(tier="quick", seed=0):
-    cs = cases(tier, seed)
+def run(tier="quick", seed=0, only_prefix="C02:", subsample=1):
+    cs = cases(tier, seed)[::subsample]
+    r = _run(cs, tier)
+    r["violations"] = [v for v in r["violations"] if v["key"].startswith(only_prefix)]
+    return r
+
+
+def _run(cs, tier):
     return common.run("bounded.C02", cs, bound="<=3 candidates x <=3 ballots (quick) / <=5 x 6 (thorough)", rule=RULE,
                       budget_s=150 if tier == "quick" else 1500)
